@@ -33,7 +33,8 @@ and the `is` test of a smart-cast conditional with its operand (built in place).
 hoisted into an enclosing block, which only shortens paths.  So along an AST path the counter at which the
 expression nodes were generated is non-decreasing, and strictly increasing from one charged node to the next.
  * get_generators offers the compound generators (conditional, is, field access, non-void call, logical / equality /
-   comparison operator) only while counter < d.  The compound nodes on a path - not counting a receiver, nor a call /
+   comparison operator; one compound node per generator step, the `is` test belongs to its conditional) only while
+   counter < d.  The compound nodes on a path - not counting a receiver, nor a call /
    assignment in statement position, which is how void expressions appear and which are generated regardless of
    depth - have strictly increasing counters in [2, d-1]: at most max(0, d-2) of them (g).
  * Below a compound node the counter is at most d+2; gen_new keeps nesting constructor calls while the counter of
@@ -64,7 +65,8 @@ DEFAULT_COMBINATIONS = 500000
 
 
 # ---------------------------------------------------------------------------------------------------------------
-# the oracle (no knowledge of the generator's code beyond the public shape of the IR: Node.children(), class names)
+# the oracle: the bounds h, f, g are derived (module docstring) from the generator's depth handling, as the property
+# asks; the measurement uses only the public shape of the IR (Node.children(), class names)
 
 def h_charged(max_depth):
     """charged nesting: the depth counter of the nodes on a path is strictly increasing in [2, max(2d+2, d+4)]"""
@@ -91,8 +93,9 @@ RUNAWAY = 2000               # the erasure search is aborted this far beyond its
 CPU_ALARM = 900              # last resort, seconds of user CPU per input
 
 
+# `Is` is not listed: it only occurs as the test of the Conditional built by the same generator step (gen_is_expr)
 COMPOUND = ('Conditional', 'FieldAccess', 'FunctionCall', 'LogicalExpr', 'EqualityExpr', 'ComparisonExpr',
-            'ArithExpr', 'Is')
+            'ArithExpr')
 
 
 def measure(M, program):
@@ -425,18 +428,18 @@ def tasks_for(tier, seed):
     all_on = {k: True for k in SWITCHES}
     # default options
     for lang in LANGS:
-        for s in range(1, (8 if quick else 60) + 1):
+        for s in range(1, (8 if quick else 50) + 1):
             add(lang, s)
     # depth limits (programs at limits 7, 8 cost minutes each: few of them)
     for lang in LANGS:
         for md, n in (((1, 1), (2, 1), (3, 1), (4, 1)) if quick else
-                      ((1, 6), (2, 6), (3, 6), (4, 6), (5, 6), (7, 2), (8, 1))):
+                      ((1, 5), (2, 5), (3, 5), (4, 5), (5, 5), (7, 1), (8, 1))):
             for s in range(101, 101 + n):
                 add(lang, s, max_depth=md)
-    # option switches: quick = 3 combinations; thorough = all 15 non-default combinations of the 4 generator switches
+    # option switches: quick = 2 combinations; thorough = all 15 non-default combinations of the 4 generator switches
     # (+ cast_numbers on the odd ones)
     if quick:
-        combos = [{SWITCHES[0]: True}, {SWITCHES[2]: True, SWITCHES[3]: True}, dict(all_on, cast_numbers=True)]
+        combos = [{SWITCHES[0]: True}, dict(all_on, cast_numbers=True)]
         sw_seeds = range(201, 202)
     else:
         combos = []
@@ -452,10 +455,10 @@ def tasks_for(tier, seed):
                 add(lang, s, **c)
     # transformation options: a small combination budget, an (already expired) visitor timeout
     for lang in LANGS:
-        for s in (range(301, 303) if quick else range(301, 311)):
+        for s in (range(301, 303) if quick else range(301, 309)):
             add(lang, s, max_combinations=1 + s % 2)
         for s in (range(401, 402) if quick else range(401, 403)):
-            if not quick or lang in ('java', 'kotlin'):
+            if not quick or lang == 'java':
                 add(lang, s, timeout=0)
     # switches x depth x budget, thorough only
     if not quick:
@@ -465,9 +468,9 @@ def tasks_for(tier, seed):
                     add(lang, s, max_depth=md, max_combinations=1, **all_on)
     rnd = random.Random(seed)
     for lang in LANGS:
-        for _ in range(1 if quick else 10):
+        for _ in range(1 if quick else 8):
             add(lang, rnd.randrange(1000, 10 ** 9))
-        for _ in range(1 if quick else 5):
+        for _ in range(1 if quick else 4):
             add(lang, rnd.randrange(1000, 10 ** 9), max_depth=rnd.choice([1, 2, 3, 4, 5]),
                 max_combinations=rnd.choice([None, 1, 2, 3]),
                 **{k: True for k in SWITCHES if rnd.random() < 0.5})
@@ -572,7 +575,7 @@ def run(tier, seed, stop_first=False, workers=None):
               'Nc <= h(d) = max(2d+1, d+3) (Expr nodes on an AST path outside the positions the generator fills '
               'without advancing its depth counter: call / function-reference receivers, array elements, assignment '
               'right-hand sides, `is` tests), N <= f(d) = 2*h(d) (all Expr nodes on a path; one uncharged node per '
-              'charged level), M <= g(d) = max(0, d-2) (compound nodes: conditional, is, field access, call, '
+              'charged level), M <= g(d) = max(0, d-2) (compound nodes: conditional, field access, call, '
               'operators; not counting receivers and statement-position calls). Derivation (specs/pipeline_ref.py): '
               'counter is 1 at top level, +1 per declaration, >= +1 per nested expression, compound generators only '
               'while counter < d, gen_new emits bottom constants beyond 2d, a lambda adds one level. An input is '
